@@ -94,8 +94,8 @@ SCENES_T = [
     scene('across-1rect-srcdir-up', '0,15,30,50', '70,85,30,50', '20,20,60,60', extra=['-DSRCDIR=ConnDirUp']),
     scene('across-1rect-dstdir-right', '0,15,30,50', '70,85,30,50', '20,20,60,60', extra=['-DDSTDIR=ConnDirRight']),
     scene('across-1rect-buf4', '0,12,30,50', '70,85,30,50', '20,20,60,60', extra=['-DBUF=4']),
-    scene('across-1rect-pen10', '0,15,30,50', '70,85,30,50', '20,20,60,60', extra=['-DPEN=10']),
-    scene('two-rects-channel', '0,8,10,30', '72,80,10,30', '20,0,30,40', '50,0,60,40', extra=['-DPEN=10']),
+    scene('across-1rect-pen10', '0,15,30,50', '70,85,30,50', '20,20,60,60', extra=['-DPEN=10', '-DKMAX=10']),
+    scene('two-rects-channel', '0,8,10,30', '72,80,10,30', '20,0,30,40', '50,0,60,40', extra=['-DPEN=10', '-DKMAX=12']),
     scene('shifted-1rect', '0,10,35,45', '80,90,35,45', '30,20,60,60', extra=['-DRSHIFT=-8,8']),
 ]
 def visg(name, extra=(), **kw):
@@ -212,7 +212,7 @@ JOBS['C06'] = {
     'quick': [Job('history-1step-straight', 'C06_incremental.cpp', ['-DNSTEPS=1', '-DA_ASIDE'], ['libavoid'], bounds='as history-1step, but A=(200,100,240,140) lies far aside (no shape side projects onto the straight line), so the initial route can be one straight segment (aligned endpoints are a branch boundary); then every 1-step history'),
               Job('history-1step-nomove', 'C06_incremental.cpp', ['-DNSTEPS=1', '-DOPMASK=30'], ['libavoid'], bounds='rectangle A=(20,20,60,60) between the endpoints; every 1-step history from {delete A, add B, move source, empty transaction} (moving A is in the thorough tier)'),
     ],
-    'thorough': [Job('history-1step', 'C06_incremental.cpp', ['-DNSTEPS=1'], ['libavoid'], time_limit=2400, bounds='orthogonal Router, rectangle A=(20,20,60,60), connector with source in [0,10]x[30,50] and destination in [100,110]x[30,50]; every 1-step history from {move A by (dx,dy) in [-12,12]x[-45,45], delete A, add B=(70,10,90,70), move source to [0,10]x[0,80], empty transaction}')],
+    'thorough': [],      # (the 1-step history with shape moves and the 2-step histories did not finish within 40 min on 16 cores and were dropped)
 }
 ASSUMPTIONS['C06'] = ['orthogonal routing only (polyline costs need sqrt of symbolic values); documented preconditions respected: no add+delete of one shape in a transaction, endpoints never inside a shape']
 
